@@ -181,6 +181,11 @@ pub enum ReadMode {
     Chunk(usize),
     Skip,
     Partial(usize),
+    /// A processor that mixes the `std::io::Read` entry points on one
+    /// object: a few of `read` / `read_vectored` / `take(k).read_to_end` /
+    /// `bytes().take(k)` first, then one of `read_to_end`, `io::copy`,
+    /// `read_to_string`-free chunk loop. Chosen by the seed, per object.
+    Mixed(u64),
 }
 
 #[derive(Debug)]
@@ -254,6 +259,65 @@ impl Collect {
                 }
             }
             ReadMode::Skip => {}
+            ReadMode::Mixed(seed) => {
+                let mut x = seed ^ (self.seen as u64).wrapping_mul(0x9e37_79b9_7f4a_7c15);
+                let mut next = |m: u64| crate::core::splitmix64(&mut x) % m;
+                let io = |e| CErr::Lib(ProcessError::Io(e));
+                let mut ended = false;
+                for _ in 0..next(4) {
+                    let k = [1usize, 2, 3, 4, 5, 7, 16, 100, 4096][next(9) as usize];
+                    match next(4) {
+                        0 => {
+                            let mut buf = vec![0u8; k];
+                            let n = data.read(&mut buf).map_err(io)?;
+                            out.extend_from_slice(&buf[..n]);
+                            ended = n == 0;
+                        }
+                        1 => {
+                            let (mut a, mut b) = (vec![0u8; k], vec![0u8; 3]);
+                            let n = {
+                                let mut bufs = [std::io::IoSliceMut::new(&mut a), std::io::IoSliceMut::new(&mut b)];
+                                data.read_vectored(&mut bufs).map_err(io)?
+                            };
+                            out.extend_from_slice(&a[..n.min(k)]);
+                            if n > k {
+                                out.extend_from_slice(&b[..n - k]);
+                            }
+                            ended = n == 0;
+                        }
+                        2 => {
+                            let n = data.by_ref().take(k as u64).read_to_end(&mut out).map_err(io)?;
+                            ended = n < k;
+                        }
+                        _ => {
+                            for b in data.by_ref().bytes().take(k) {
+                                out.push(b.map_err(io)?);
+                            }
+                        }
+                    }
+                    if ended {
+                        break;
+                    }
+                }
+                match next(3) {
+                    0 => {
+                        data.read_to_end(&mut out).map_err(io)?;
+                    }
+                    1 => {
+                        std::io::copy(data, &mut out).map_err(io)?;
+                    }
+                    _ => {
+                        let mut buf = vec![0u8; 1 + next(9000) as usize];
+                        loop {
+                            let n = data.read(&mut buf).map_err(io)?;
+                            if n == 0 {
+                                break;
+                            }
+                            out.extend_from_slice(&buf[..n]);
+                        }
+                    }
+                }
+            }
         }
         self.data_bytes += out.len() as u64;
         Ok(out)
@@ -321,7 +385,7 @@ pub fn diff_collect(c: &Collect, session: &[u8; 16], serial: u64, want: &[MEl]) 
         return Some("element-count".into());
     }
     let data_ok = |got: &[u8], d: &[u8]| match c.mode {
-        ReadMode::ToEnd | ReadMode::Chunk(_) => got == d,
+        ReadMode::ToEnd | ReadMode::Chunk(_) | ReadMode::Mixed(_) => got == d,
         ReadMode::Skip => got.is_empty(),
         ReadMode::Partial(_) => got.len() <= d.len() && got == &d[..got.len()] && (d.is_empty() || !got.is_empty()),
     };
